@@ -1,6 +1,7 @@
 """C15 — Ising-to-generic sampler conversion preserves model and trajectory."""
 from checks import pure_fns
 from checks import api_cov
+from checks import scale_inv
 LEAN_TARGETS = ["QmcProps.C15", "drv_c15"]
 BINS = ["c15"]
 
@@ -65,4 +66,5 @@ def main(ck):
     ck.assumptions.append("Gamma >= 0 (constructor domain of make_interaction; with Gamma < 0 the Ising sampler's own timestep panics in gen_bool)")
     ck.assumptions.append("trajectory theorem: h = 0 (|h| <= eps), RVB and heat-bath options off; it is a statement about the composition of the two timesteps out of shared update routines (Moves/Lawful), tied to the real code by the lock-step runs")
     api_cov.run(ck, "c04")   # otherwise unexercised public API, model-free oracles of this property
+    scale_inv.run(ck, "c15")   # power-of-two unit change: identical trajectory, energies exactly scaled (model-free twin oracle)
     return ck.finish(RULE)
